@@ -125,9 +125,15 @@ class RaiseCase:
 
 class Ctx:
     """handed to the contract body; gives access to arguments, pre/post state and the result"""
-    def __init__(self, contract, args, pre, post, result):
+    def __init__(self, contract, args, pre, post, result, verifying=False):
         self.k, self.args, self._pre, self._post, self.result = contract, args, pre, post, result
+        self.verifying = verifying      # True: clauses become obligations on the body; False: use at a call site
         self.out = Clauses()
+
+    @property
+    def rv(self):
+        """the result as a z3 Val"""
+        return to_val(self.result, self._post.st)
 
     # arguments
     def arg(self, name):            # PV
@@ -209,8 +215,8 @@ class Contract:
         raise KeyError(name)
 
     # ------------------------------------------------------------ evaluation of the body
-    def clauses(self, args, pre_st, post_st, result):
-        c = Ctx(self, args, View(pre_st, args), View(post_st, args), result)
+    def clauses(self, args, pre_st, post_st, result, verifying=False):
+        c = Ctx(self, args, View(pre_st, args), View(post_st, args), result, verifying)
         self.body(c)
         return c.out
 
